@@ -605,7 +605,132 @@ func (w *walker) setVar(st *State, o types.Object, d *Def) *State {
 			n.Facts = append(n.Facts, &nf)
 		}
 	}
+	// a variable assigned a value that is never nil carries the synthetic fact "v != nil"
+	if d != nil && d.Rhs != nil && d.Idx == -1 && d.Kind == DefAssign && w.p.neverNil(d.Rhs) {
+		if _, isPtr := o.Type().Underlying().(*types.Pointer); isPtr {
+			id := &ast.Ident{Name: o.Name(), NamePos: d.Rhs.Pos()}
+			w.p.Info.Uses[id] = o
+			nilID := &ast.Ident{Name: "nil", NamePos: d.Rhs.Pos()}
+			w.p.Info.Uses[nilID] = types.Universe.Lookup("nil")
+			n = w.addFact(n, &ast.BinaryExpr{X: id, Op: token.NEQ, Y: nilID, OpPos: d.Rhs.Pos()}, true)
+		}
+	}
 	return n
+}
+
+// neverNil: the expression certainly evaluates to a non-nil pointer: &T{...}, new(T), a call of a
+// module function all of whose returns are never-nil, or a package-level variable initialised that
+// way and never reassigned.
+func (p *Prog) neverNil(e ast.Expr) bool {
+	return p.neverNilDepth(e, 0)
+}
+
+func (p *Prog) neverNilDepth(e ast.Expr, depth int) bool {
+	if depth > 4 {
+		return false
+	}
+	switch x := unparen(e).(type) {
+	case *ast.UnaryExpr:
+		if x.Op == token.AND {
+			_, isLit := unparen(x.X).(*ast.CompositeLit)
+			return isLit
+		}
+	case *ast.CallExpr:
+		if id, ok := unparen(x.Fun).(*ast.Ident); ok && id.Name == "new" {
+			if _, isB := p.ObjOf(id).(*types.Builtin); isB {
+				return true
+			}
+		}
+		callee := p.Callee(x)
+		if callee == nil {
+			return false
+		}
+		fn := p.FuncOf[callee]
+		if fn == nil || fn.Decl.Body == nil || fn.Decl.Recv != nil {
+			return false
+		}
+		if v, ok := p.neverNilFn[fn]; ok {
+			return v
+		}
+		if p.neverNilFn == nil {
+			p.neverNilFn = map[*Func]bool{}
+		}
+		p.neverNilFn[fn] = false // recursion guard
+		all, any := true, false
+		ast.Inspect(fn.Decl.Body, func(n ast.Node) bool {
+			switch r := n.(type) {
+			case *ast.FuncLit:
+				return false
+			case *ast.ReturnStmt:
+				any = true
+				if len(r.Results) != 1 || !p.neverNilDepth(r.Results[0], depth+1) {
+					all = false
+				}
+			}
+			return true
+		})
+		p.neverNilFn[fn] = all && any
+		return all && any
+	case *ast.Ident:
+		if v, ok := p.ObjOf(x).(*types.Var); ok && v.Pkg() != nil && v.Parent() == v.Pkg().Scope() {
+			return p.pkgVarNeverNil(v, depth)
+		}
+	case *ast.SelectorExpr:
+		if v, ok := p.ObjOf(x.Sel).(*types.Var); ok && !v.IsField() && v.Pkg() != nil && v.Parent() == v.Pkg().Scope() {
+			return p.pkgVarNeverNil(v, depth)
+		}
+	}
+	return false
+}
+
+// pkgVarNeverNil: package-level variable initialised with a never-nil expression and never assigned again.
+func (p *Prog) pkgVarNeverNil(v *types.Var, depth int) bool {
+	var init ast.Expr
+	assigned := false
+	for _, pk := range p.Pkgs {
+		if pk.Types != v.Pkg() {
+			continue
+		}
+		for _, f := range pk.Syntax {
+			ast.Inspect(f, func(n ast.Node) bool {
+				switch x := n.(type) {
+				case *ast.ValueSpec:
+					for i, nm := range x.Names {
+						if pk.TypesInfo.Defs[nm] == types.Object(v) && i < len(x.Values) {
+							init = x.Values[i]
+						}
+					}
+				case *ast.AssignStmt:
+					for _, l := range x.Lhs {
+						if id, ok := unparen(l).(*ast.Ident); ok && pk.TypesInfo.Uses[id] == types.Object(v) {
+							assigned = true
+						}
+					}
+				}
+				return true
+			})
+		}
+	}
+	// assignments from other packages (exported variable)
+	for _, pk := range p.Pkgs {
+		if pk.Types == v.Pkg() {
+			continue
+		}
+		for id, o := range pk.TypesInfo.Uses {
+			if o == types.Object(v) {
+				if sel, ok := p.Parent(id).(*ast.SelectorExpr); ok {
+					if as, ok := p.Parent(sel).(*ast.AssignStmt); ok {
+						for _, l := range as.Lhs {
+							if unparen(l) == ast.Expr(sel) {
+								assigned = true
+							}
+						}
+					}
+				}
+			}
+		}
+	}
+	return init != nil && !assigned && p.neverNilDepth(init, depth+1)
 }
 
 // kill invalidates facts after a write through a non-identifier lvalue (field, index, deref).
